@@ -314,6 +314,12 @@ def run(ctx):
            where=(drop.loc() if drop else P.adt("session::Session")["file"]))
 
     # ---- R5 state machine
+    state_machine(ctx, P, E, "R5")
+
+
+def state_machine(ctx, P, E, rule):
+    """TxInfo.state only moves Active -> Committed / Aborted (shared with C03: gc() drops Aborted records at once, so a
+    Committed transaction that can be flipped to Aborted loses the write set later committers are validated against)"""
     nassign = 0
     for f in P.fns.values():
         for a in E.own_acc(f):
@@ -338,7 +344,7 @@ def run(ctx):
                 for st in f.blocks[a.block]["s"]:
                     if st[2] == a.line and st[1][0] == "agg" and st[1][2].endswith("TxState"):
                         val = st[1][3]
-                ctx.ob("R5", "%s#state=%s" % (short_id(f.id), val), guarded and val != "Active",
+                ctx.ob(rule, "%s#state=%s" % (short_id(f.id), val), guarded and val != "Active",
                        what="assignment TxInfo.state = %s in %s is not control-dependent on state == Active "
                             "(a finished transaction could change state again)" % (val, short_id(f.id)), where=f.loc(a.line))
-    ctx.floor("R5", nassign, 3, "assignments to TxInfo.state")
+    ctx.floor(rule, nassign, 3, "assignments to TxInfo.state")
